@@ -6,6 +6,7 @@ pub struct Cfg {
     pub seed: u64,
     pub thorough: bool,
     pub only: Option<usize>,
+    pub from: usize,
     pub scale: usize,
     pub which: String, // "blocking" | "async"
 }
@@ -45,6 +46,7 @@ pub fn run(reg: &[Box<dyn TypeOps>], cfg: &Cfg, out: &mut dyn Write) {
     let is_async = cfg.which == "async";
     for (tid, t) in reg.iter().enumerate() {
         if let Some(o) = cfg.only { if o != tid { continue; } }
+        if tid < cfg.from { continue; }
         if t.min_size() == 0 { continue; }
         let sh = parse(t.desc());
         // sized leaves are covered by a few representatives; every unsized type is a message type
